@@ -42,6 +42,13 @@
 //	      the failure function of the plan on the LOWER FailFS (installed before /
 //	      after the upper one is built, the upper one having none), and on the
 //	      upper FailFS over a lower one that refuses changes.
+//	(vi)  the moment the function is installed (when.go): SetFailFunc is a call
+//	      like any other. (i), (ii), (ii') and (iii) again with no function
+//	      during the first 1, 2 calls of the history and the function of the
+//	      plan installed afterwards - every object (handles, Sub file systems)
+//	      made before the function exists has to obey it -, and (i) with the
+//	      recording function replaced by a second one and removed again in
+//	      mid-history: a function that was replaced is never consulted again.
 package main
 
 import (
@@ -106,7 +113,7 @@ func main() {
 	tier := flag.String("tier", "quick", "quick|thorough")
 	replay := flag.String("replay", "", "replay file to re-execute")
 	bases := flag.String("bases", "MemFS,OrefaFS", "base file systems")
-	only := flag.String("only", "", "run only these parts (comma list of: fault,handle,none,okfunc,readonly,stack,conc)")
+	only := flag.String("only", "", "run only these parts (comma list of: fault,handle,none,okfunc,readonly,stack,when,conc)")
 	depthF := flag.Int("depth", 0, "override the history bound of all parts")
 
 	var w1, w2 string
@@ -165,6 +172,23 @@ func main() {
 	stackRuns := []stackRun{{stPlanPre, 1, false, nil}, {stPlanPost, 1, true, nil}, {stRoPre, 1, false, nil}, {stRoPost, 1, false, nil}}
 	stackDepth, wideDepth, midDepth := 2, 1, 0
 
+	// The moment the function of the plan is installed (when.go). Engine A: the
+	// recording plan and the read-only plan with no function during the first
+	// 1..whenLate calls of the history, the recording plan with its function
+	// replaced and removed in mid-history (swap), same depth as (i). Fault
+	// enumeration with the schedules of whenRuns: histories of up to `hist` calls
+	// (0: none) with every single-fault plan, handle programmes with the function
+	// installed at every position inside the opening prefix.
+	type whenRun struct {
+		when   string
+		hist   int
+		handle bool
+		pres   []string
+	}
+
+	whenLate := 1
+	whenRuns := []whenRun{{lateWhen(1), 0, true, nil}}
+
 	if *tier == "thorough" {
 		bfsDepth, faultHist = 3, 3
 		stackRuns = []stackRun{
@@ -172,6 +196,8 @@ func main() {
 		}
 		stackDepth, wideDepth, midDepth = 3, 2, 3
 		handlePres = []string{"*"}
+		whenLate = 2
+		whenRuns = []whenRun{{lateWhen(1), 2, true, handlePres}}
 	}
 
 	if *depthF > 0 {
@@ -184,6 +210,10 @@ func main() {
 
 		for i := range stackRuns {
 			stackRuns[i].hist = *depthF
+		}
+
+		for i := range whenRuns {
+			whenRuns[i].hist = *depthF
 		}
 	}
 
@@ -232,7 +262,7 @@ func main() {
 
 	if part("fault") || part("handle") {
 		for _, b := range baseNames {
-			fe := newFaultEngine(b, "")
+			fe := newFaultEngine(b, "", "")
 			engines = append(engines, fe)
 
 			if part("fault") {
@@ -263,7 +293,7 @@ func main() {
 	if part("stack") && (part("fault") || part("handle")) && harnessErr == "" {
 		for _, sr := range stackRuns {
 			for _, b := range baseNames {
-				fe := newFaultEngine(b, sr.stack)
+				fe := newFaultEngine(b, sr.stack, "")
 				stackEngines = append(stackEngines, fe)
 
 				if part("fault") {
@@ -289,6 +319,38 @@ func main() {
 		}
 	}
 
+	// ---- (vi) fault enumeration with the function installed in mid-history ----
+	var whenEngines []*faultEngine
+
+	if part("when") && (part("fault") || part("handle")) && harnessErr == "" {
+		for _, wr := range whenRuns {
+			for _, b := range baseNames {
+				fe := newFaultEngine(b, "", wr.when)
+				whenEngines = append(whenEngines, fe)
+
+				if part("fault") && wr.hist > 0 {
+					for l := 0; l < wr.hist; l++ {
+						fe.runLevel(at(0.56), report)
+					}
+
+					fmt.Printf("C12 fault %s: letters=%d histories=%d (length<=%d complete) fault-free runs=%d single-fault runs=%d states=%d %s\n",
+						fe.label(), fe.probe.NumOps(), fe.Histories, fe.HistLen, fe.FaultFree, fe.FaultRuns, fe.States, fe.Partial)
+				}
+
+				if part("handle") && wr.handle {
+					fe.runHandle(wr.pres, at(0.60), report)
+
+					fmt.Printf("C12 handle programmes %s: (opening prefix, position of SetFailFunc inside it)=%d (pre in %v) fault-free runs open;[pre];F=%d single-fault runs open;[pre];F fails;G;Close=%d twin followed to the end in %d %s\n",
+						fe.label(), fe.HPrefixes, wr.pres, fe.HProgs, fe.HRuns, fe.HFollowed, fe.HPartial)
+				}
+
+				if fe.HarnessErr != "" {
+					harnessErr = "fault enumeration on " + fe.label() + ": " + fe.HarnessErr
+				}
+			}
+		}
+	}
+
 	// ---- (i) and (iii): engine A ----------------------------------------------
 	type bfsSystem struct {
 		name  string
@@ -301,6 +363,7 @@ func main() {
 		heavy   []bfsSystem
 
 		stackSystems, stackStates, stackTrans int
+		whenSystems, whenStates, whenTrans    int
 	)
 
 	depthDone := bfsDepth
@@ -312,11 +375,27 @@ func main() {
 	for _, b := range baseNames {
 		if part("readonly") {
 			sysList = append(sysList, bfsSystem{sysName(b, "readonly", ""), bfsDepth})
+
+			if part("when") {
+				// (vi) before ReadOnlyFunc is installed the base can change: as many states as plan none
+				for n := 1; n <= whenLate; n++ {
+					heavy = append(heavy, bfsSystem{sysName(b, planWhen("readonly", lateWhen(n)), ""), bfsDepth})
+				}
+			}
 		}
 
 		for _, p := range []string{"none", "okfunc"} {
 			if part(p) {
 				heavy = append(heavy, bfsSystem{sysName(b, p, ""), bfsDepth})
+			}
+
+			if part("when") && part(p) && p == "okfunc" {
+				// (vi) objects first, function afterwards; function replaced and removed
+				for n := 1; n <= whenLate; n++ {
+					heavy = append(heavy, bfsSystem{sysName(b, planWhen(p, lateWhen(n)), ""), bfsDepth})
+				}
+
+				heavy = append(heavy, bfsSystem{sysName(b, planWhen(p, whenSwap), ""), bfsDepth})
 			}
 
 			if !part("stack") || !part(p) {
@@ -352,7 +431,7 @@ func main() {
 		var deadline time.Time
 
 		if budget > 0 {
-			end := at(0.72)
+			end := at(0.78)
 			left := time.Until(end)
 
 			if left < 0 {
@@ -389,6 +468,12 @@ func main() {
 		if stack == "" {
 			if st.DepthDone < depthDone {
 				depthDone = st.DepthDone
+			}
+
+			if _, when := splitPlan(plan); when != "" {
+				whenSystems++
+				whenStates += st.States
+				whenTrans += st.Transitions
 			}
 		} else {
 			stackSystems++
@@ -455,10 +540,15 @@ func main() {
 
 	faultExh := true
 
-	var stackRunsN, stackHist int
+	var stackRunsN, stackHist, whenRunsN, whenHist, whenHRuns int
 
-	for i, fe := range append(append([]*faultEngine{}, engines...), stackEngines...) {
-		if i >= len(engines) {
+	for i, fe := range append(append(append([]*faultEngine{}, engines...), stackEngines...), whenEngines...) {
+		if i >= len(engines)+len(stackEngines) {
+			// engines with a schedule add runs and classes, as the stacked ones do
+			whenRunsN += fe.FaultFree + fe.FaultRuns + fe.HProgs
+			whenHist += fe.Histories
+			whenHRuns += fe.HRuns
+		} else if i >= len(engines) {
 			// stacked engines add runs and classes; the coverage assertion over the FnVFS
 			// enumeration is made on the single FailFS (a lower FailFS is never asked
 			// for the ids of the composites re-implemented by the upper one)
@@ -648,6 +738,61 @@ func main() {
 		}
 	}
 
+	// (vi) what was run with a schedule of SetFailFunc calls
+	var whenBfsNames, whenSchedules []string
+
+	usedWhens := map[string]bool{}
+
+	for _, st := range stats {
+		if _, plan, stack, _ := splitSysName(st.System); stack == "" {
+			if p, when := splitPlan(plan); when != "" {
+				usedWhens[when] = true
+				whenBfsNames = append(whenBfsNames, fmt.Sprintf("%s (plan %s, %s): histories of length <= %d", when, p, st.System[:strings.IndexByte(st.System, '/')], st.DepthDone))
+			}
+		}
+	}
+
+	whenFaultBound := "none"
+
+	if len(whenEngines) > 0 {
+		var parts []string
+
+		for _, wr := range whenRuns {
+			usedWhens[wr.when] = true
+
+			p := wr.when + ":"
+			if wr.hist > 0 {
+				p += fmt.Sprintf(" all single-fault plans of all histories of length <= %d", wr.hist)
+			}
+
+			if wr.handle {
+				if wr.hist > 0 {
+					p += " and"
+				}
+
+				p += fmt.Sprintf(" the handle programmes with pre in {none%s}, SetFailFunc at every position inside the opening prefix (after the Sub, after the open, after pre) whatever the number in the name of the schedule",
+					strings.Join(append([]string{""}, wr.pres...), ", "))
+			}
+
+			parts = append(parts, p)
+		}
+
+		whenFaultBound = strings.Join(parts, "; ")
+
+		for _, fe := range whenEngines {
+			if !fe.Exhaustive {
+				whenFaultBound += " (" + fe.label() + " cut by the budget: " + fe.Partial + " " + fe.HPartial + ")"
+			}
+		}
+	}
+
+	for w := range usedWhens {
+		whenSchedules = append(whenSchedules, w+": "+whenDesc(w))
+	}
+
+	sort.Strings(whenBfsNames)
+	sort.Strings(whenSchedules)
+
 	if harnessErr != "" {
 		// a harness error is never a verdict: no VIOLATION lines, no evidence
 		fmt.Fprintln(os.Stderr, "c12: harness error:", harnessErr)
@@ -707,6 +852,23 @@ func main() {
 				"bfs_history_bound":         bfsStackNames,
 				"composite_ids_of_the_base": "plan stacks: FailFS re-implements ReadDir, ReadFile and MkdirTemp over itself, so a FailFS built on a FailFS never asks the lower one for FnReadDir / FnReadFile / FnMkdirTemp; the own-id oracle reports it (kind no-consultation, stack ff-plan-*)",
 			},
+			"installation_moment": map[string]any{
+				"lesson": "SetFailFunc is a call of the API like any other: the function that governs is the one installed now, for every object the FailFS has ever handed out. " +
+					"A harness that installs the function right after the constructor only sees objects born under it; code that decides at the birth of an object whether or how it will consult " +
+					"(bare base handle while there is nothing to inject, function copied into the object) is wrong only for 'objects first, function afterwards', code that keeps what it copied only once the function is replaced or removed",
+				"schedules":                whenSchedules,
+				"bfs_systems":              whenSystems,
+				"bfs_states":               whenStates,
+				"bfs_transitions":          whenTrans,
+				"bfs_history_bound":        whenBfsNames,
+				"fault_engines":            whenEngines,
+				"fault_runs":               whenRunsN,
+				"fault_histories":          whenHist,
+				"handle_programme_runs":    whenHRuns,
+				"oracle_after_installing":  "the oracles of the plan on every object whenever it was obtained (own id consulted before any base effect; exactly E, base untouched, twin in lock-step; base unchangeable under ReadOnlyFunc)",
+				"oracle_before_installing": "recording and single-fault plans: lock-step with the twin base (the FailFS as constructed); read-only plan: none (the calls build what ReadOnlyFunc then has to govern)",
+				"oracle_after_replacing":   "kind stale-function: no consultation may arrive at a recording function that is not the one installed now; after SetFailFunc(failfs.OkFunc) none at all; lock-step with the twin throughout",
+			},
 			"fault_outcomes_distinct":       len(foutcomes),
 			"states":                        states,
 			"transitions":                   trans,
@@ -717,9 +879,10 @@ func main() {
 			"bound": fmt.Sprintf("(i)/(iii) all histories of length <= %d (completed %d) per system, OpenFile with %d flag sets (4 of them O_RDONLY plus TRUNC / CREATE / CREATE|EXCL / APPEND) on each of %d paths; "+
 				"(ii) all single-fault plans of all histories of length <= %d (completed %d), twin in lock-step before and after the failure; "+
 				"(ii') all handle programmes open;[pre];F fails;G;Close with pre in {none, %s} (\"*\" = every File call), every File method F (every consultation, every error) and every File method G (%d letters); "+
-				"(iv) stacked and wrapped bases, same alphabet, twin = the wrapped base driven directly (twin stacks) or the bare base (plan stacks): engine A %s; fault enumeration %s",
+				"(iv) stacked and wrapped bases, same alphabet, twin = the wrapped base driven directly (twin stacks) or the bare base (plan stacks): engine A %s; fault enumeration %s; "+
+				"(vi) moment of SetFailFunc, same alphabet: engine A %s; fault enumeration %s",
 				bfsDepth, depthDone, len(flagSets), len(nsPaths), faultHist, histDone, strings.Join(handlePres, ", "), len(fileCalls()),
-				strings.Join(bfsStackNames, ", "), stackFaultBound),
+				strings.Join(bfsStackNames, ", "), stackFaultBound, strings.Join(whenBfsNames, ", "), whenFaultBound),
 			"known_findings_matched": append([]string{}, rep.KnownMatched()...),
 		},
 		Assumptions: []string{
@@ -741,6 +904,10 @@ func main() {
 				"single-fault plans on a lower FailFS are judged by the oracles of the single FailFS on the stack as a whole (plan stacks), not against a second counting function; " +
 				"in-history replacement of the lower function (ff-ro-mid) is part of the thorough tier only (it needs histories of three calls to show anything the ff-ro-post stack does not); " +
 				"BasePathFS and Sub view are rooted at \"/\" so that the path alphabet keeps its meaning, hence on MemFS only (\"/\" of OrefaFS cannot be a base path, OrefaFS has no Sub); the read-only plan is not repeated on stacks",
+			"moment of SetFailFunc: the SetFailFunc calls are not letters but a schedule keyed on the position in the history (after 1, 2 calls), so that they do not use up the history bound; " +
+				"functions installed: the recording always-nil function(s) of the harness, the single-fault function, failfs.ReadOnlyFunc, and failfs.OkFunc for 'removed' (the function failfs.New installs: SetFailFunc(nil) is not enumerated, " +
+				"the API has no notion of it - the next call panics); the read-only plan is not continued after its function is removed (it has no twin that could say what the base must look like afterwards): removal is judged on the recording plan, " +
+				"by which function is consulted; schedules are run on the single FailFS only, not combined with the stacked bases of (iv)",
 		},
 		Violations: rep.NewCount(),
 	}
@@ -749,8 +916,8 @@ func main() {
 		die("evidence: %v", err)
 	}
 
-	fmt.Printf("c12: tier=%s bfs systems=%d (of which on stacked bases=%d) states=%d transitions=%d (depth %d/%d) | fault: histories=%d runs=%d (of which through stacked FailFS=%d) single-fault=%d (of which handle programmes=%d, twin followed=%d) classes=%d length %d/%d | FnVFS covered %d/%d (+%d listed unreachable) | new signatures=%d exhaustive=%v wall=%.1fs\n",
-		*tier, len(stats), stackSystems, states, trans, depthDone, bfsDepth, histories, runs, stackRunsN, faultRuns, hruns, hfollowed, len(classes), histDone, faultHist,
+	fmt.Printf("c12: tier=%s bfs systems=%d (of which on stacked bases=%d, with SetFailFunc in mid-history=%d) states=%d transitions=%d (depth %d/%d) | fault: histories=%d runs=%d (of which through stacked FailFS=%d, with SetFailFunc in mid-history=%d) single-fault=%d (of which handle programmes=%d, twin followed=%d) classes=%d length %d/%d | FnVFS covered %d/%d (+%d listed unreachable) | new signatures=%d exhaustive=%v wall=%.1fs\n",
+		*tier, len(stats), stackSystems, whenSystems, states, trans, depthDone, bfsDepth, histories, runs, stackRunsN, whenRunsN, faultRuns, hruns, hfollowed, len(classes), histDone, faultHist,
 		len(coveredNames), len(allFn()), len(unreachableFn), rep.NewCount(), bfsExh && faultExh && harnessErr == "", ev.Elapsed())
 
 	os.Exit(code)
@@ -786,9 +953,9 @@ func doReplay(path string) int {
 		die("replay: %s holds no history", path)
 	}
 
-	s := newSys(r.System, r.Plan, r.Stack)
+	s := newSys(r.System, r.Plan, r.Stack) // r.Plan: plan[@when]
 
-	if r.Plan == "fault" {
+	if s.plan == "fault" {
 		if r.Fault == nil {
 			die("replay: fault plan without k")
 		}
@@ -809,6 +976,17 @@ func doReplay(path string) int {
 
 	bad := 0
 
+	installed := ""
+
+	showFn := func() {
+		if s.when != "" && s.installed != installed {
+			installed = s.installed
+			fmt.Printf("        failfs.SetFailFunc(%s)   [schedule %s]\n", installed, s.when)
+		}
+	}
+
+	showFn()
+
 	for j, h := range r.History {
 		i, ok := index[h]
 		if !ok {
@@ -816,6 +994,7 @@ func doReplay(path string) int {
 		}
 
 		from := len(s.trace)
+		s.nsteps = j // position in the history, whether or not the call changes the state (sys.Step)
 		sr := s.Step(i)
 
 		fmt.Printf("call %d: %s -> %s\n", j, h, s.lastRender)
@@ -829,9 +1008,11 @@ func doReplay(path string) int {
 			sig := kf.Sig(v.Sig)
 			fmt.Printf("REPLAY: violated: %s\n    %s\n", sig.String(), v.Detail)
 		}
+
+		showFn()
 	}
 
-	if r.Plan == "fault" && !s.fired {
+	if s.plan == "fault" && !s.fired {
 		fmt.Printf("REPLAY: consultation %d was never reached\n", r.Fault.K)
 	}
 
